@@ -539,7 +539,7 @@ fn normalize(root: &[String], segs: &[&str]) -> Option<Vec<String>> {
 pub fn c07(ctx: Arc<Ctx>) {
 	ctx.rule(
 		"real `versatiles serve` binary with a folder root and the equivalent tar root, mounted at / and under a URL prefix; canary files next to the root, above it and at an absolute path; \
-		 requests: every sequence of <= 4 segments over {a.txt, d, e.txt, canary.txt, ., .., empty, %2e%2e, %2E., ..%2f, %5c.., <root name>, <sibling name>} with and without trailing slash, plus absolute-path smuggling targets; raw request targets (no client-side normalisation). \
+		 requests: every sequence of <= 4 segments over {a.txt, d, e.txt, canary.txt, ., .., empty, %2e%2e, %2E., ..%2f, %5c.., <root name>, <sibling name>, secret.txt and backup (which exist outside the root only as .gz/.br)} with and without trailing slash, plus absolute-path smuggling targets; raw request targets (no client-side normalisation). \
 		 oracle: a 200 body (decoded) equals the file inside the root that the path resolves to and never contains a canary; plain paths to existing files are served. non-trivial = request targets containing a dot, empty or encoded segment",
 	);
 	let work = ct::WorkDir::new("c07");
@@ -556,6 +556,11 @@ pub fn c07(ctx: Arc<Ctx>) {
 	for (p, c) in &canaries {
 		std::fs::write(p, c).unwrap();
 	}
+	// files outside the root that exist only in pre-compressed form (the handler falls back to <name>.br / <name>.gz)
+	std::fs::write(base.join("secret.txt.gz"), codec::gzip(b"CANARY-PRECOMPRESSED-GZ")).unwrap();
+	std::fs::write(sibling.join("secret.txt.br"), codec::brotli_enc(b"CANARY-PRECOMPRESSED-BR")).unwrap();
+	std::fs::create_dir_all(base.join("backup")).unwrap();
+	std::fs::write(base.join("backup/index.html.br"), codec::brotli_enc(b"CANARY-PRECOMPRESSED-INDEX")).unwrap();
 	// equivalent tar
 	let members: Vec<(String, Vec<u8>)> = files.iter().map(|(p, c)| (p.to_string(), c.clone())).collect();
 	std::fs::write(base.join("www.tar"), codec::tar_write(&members, codec::TarLayout { dot_prefix: false, dir_entries: false, gnu: false, reversed: false, meta_last: false })).unwrap();
@@ -571,7 +576,7 @@ pub fn c07(ctx: Arc<Ctx>) {
 		std::path::Component::Normal(s) => Some(s.to_string_lossy().to_string()),
 		_ => None,
 	}).collect();
-	let segs: Vec<&str> = vec!["a.txt", "d", "e.txt", "canary.txt", ".", "..", "", "%2e%2e", "%2E.", "..%2f", "%5c..", "www", "www-internal"];
+	let segs: Vec<&str> = vec!["a.txt", "d", "e.txt", "canary.txt", ".", "..", "", "%2e%2e", "%2E.", "..%2f", "%5c..", "www", "www-internal", "secret.txt", "backup"];
 	let maxlen = ctx.tier.pick(4usize, 5usize);
 	let mut seqs: Vec<Vec<usize>> = vec![vec![]];
 	let mut frontier: Vec<Vec<usize>> = vec![vec![]];
